@@ -6,6 +6,15 @@
 //   VbaProject::from_cfb   (entry; C06: every implicit obligation of its text, incl. the slice `&s[m.text_offset..]` inside the closure)
 //   read_dir_information   (entry; C18.dir_codepage as in unit vbadec, plus the NEW clause C18.dir_info_consumed: where the cursor stands
 //                           afterwards -- vbadec's contract does not say, from_cfb needs it to tie the reference array to the dir stream)
+//   VbaProject::get_references / get_module_names / get_module_raw / get_module   (entry; C18 observe_at): the stored references; the names
+//                          are exactly the keys of the module map, one per key; get_module_raw(name) = Ok(bytes bound to exactly that
+//                          name) / Err(ModuleNotFound(name)) iff absent (C18.module_raw_is_bound_content); get_module(name) = Ok(text)
+//                          with text == decoded(code page of the project, those raw bytes) (C18.module_text_is_code_page_decoding) /
+//                          Err iff absent.  `decoded` is the uninterpreted function of the XlsEncoding stand-in (A-enc, as in vbadec).
+//                          Trusted for them: axiom_string_keyed_lookup / axiom_map_deep_dom (String keys compared by content; tie vstd's
+//                          lookup predicates and key set to `map_deep`), axiom_string_from_str, and WEAK specs without ensures for
+//                          core::str::from_utf8, str::to_lowercase / to_uppercase / trim (only so that edited texts are decided).
+//                          Rewrite in get_module_names: the keys() iterator and the tail expression are bound to locals (2 replaces).
 // Composed from contracts PROVED IN OTHER UNITS on the real text (here `external_body` on the extracted functions, clause text copied):
 //   unit cfb     Cfb::get_stream            requires wf; C13.get_stream_frame, stream_not_found, get_stream_reads_logical_stream
 //   unit vbadec  cfb::decompress_stream     C18.decode, bad_container_signature_rejected, C06.empty_container_rejected
@@ -45,6 +54,7 @@
 #![feature(pattern)]
 #![allow(unused_imports, dead_code, unused_variables, unused_mut, unused_assignments, unexpected_cfgs, deprecated, unused_braces)]
 use vstd::prelude::*;
+use vstd::std_specs::iter::IteratorSpec;
 use std::collections::BTreeMap;
 use std::path::PathBuf;
 
@@ -698,6 +708,8 @@ impl VbaProject {
     pub closed spec fn refs(&self) -> Seq<Reference> { self.references@ }
     pub closed spec fn cp(&self) -> u16 { self.encoding.cp }
     pub closed spec fn mods(&self) -> Map<Seq<char>, Seq<u8>> { map_deep(self.modules) }
+    /// number of keys of the module map
+    pub closed spec fn key_count(&self) -> nat { self.modules@.dom().len() }
 }
 /// bindings made in order: a later binding of the same name replaces the earlier one
 pub open spec fn fold_bind(names: Seq<Seq<char>>, datas: Seq<Seq<u8>>) -> Map<Seq<char>, Seq<u8>>
@@ -887,6 +899,46 @@ proof fn witness_fold_bind()
     lemma_fold_last(n, d, 1);
 }
 
+// =====================================================================================================================
+// The accessors of VbaProject (C18 observe_at: get_references, get_module_names, get_module_raw, get_module)
+// =====================================================================================================================
+use vstd::std_specs::btree::{maps_borrowed_key_to_value, contains_borrowed_key, borrowed_key_ordering_matches};
+// TRUSTED: (A-std) a `BTreeMap<String, _>` looked up by `&str` (std: "`Borrow<str> for String`: Eq, Ord and Hash are equivalent for borrowed
+// and owned values"; String's Ord is the lawful lexicographic order on the text): the lookup finds the value of the key whose text is
+// exactly `k`, if there is one.  vstd leaves its lookup predicates uninterpreted for String / str; this axiom ties them to `map_deep`
+// (the map seen as character sequence -> byte sequence, which `verif_collect_btreemap` defines for the map from_cfb builds).
+#[verifier::external_body]
+pub proof fn axiom_string_keyed_lookup(m: BTreeMap<String, Vec<u8>>, k: &str)
+    ensures
+        vstd::laws_cmp::obeys_cmp::<String>(),
+        borrowed_key_ordering_matches::<String, str>(),
+        contains_borrowed_key(m@, k) <==> map_deep(m).contains_key(k@),
+        forall|v: Vec<u8>| #[trigger] maps_borrowed_key_to_value(m@, k, v) ==> map_deep(m).contains_key(k@) && map_deep(m)[k@] == v@,
+{}
+// TRUSTED: `map_deep` has the keys of the map, seen as character sequences (meaning of the deep view)
+#[verifier::external_body]
+pub proof fn axiom_map_deep_dom(m: BTreeMap<String, Vec<u8>>)
+    ensures forall|key: Seq<char>| map_deep(m).contains_key(key) <==> exists|s: String| #[trigger] m@.contains_key(s) && s@ == key,
+{}
+// TRUSTED: (A-std) `String::from(&str)` / `<&str as Into<String>>::into` copies the characters; vstd has no specification for this instance
+#[verifier::external_body]
+pub proof fn axiom_string_from_str()
+    ensures
+        <String as vstd::std_specs::convert::FromSpec<&str>>::obeys_from_spec(),
+        forall|s: &str| (#[trigger] <String as vstd::std_specs::convert::FromSpec<&str>>::from_spec(s))@ == s@,
+{}
+// TRUSTED: (A-std, weak) `core::str::from_utf8` never panics; NOTHING is assumed about its result (present only so that a text using it
+// is decided by the verifier instead of being rejected)
+#[verifier::external_type_specification] #[verifier::external_body] pub struct ExUtf8Error(core::str::Utf8Error);
+pub assume_specification[ core::str::from_utf8 ](v: &[u8]) -> (r: Result<&str, core::str::Utf8Error>);
+// (`<str as ToOwned>::to_owned` is specified by vstd itself)
+// TRUSTED: (A-std, weak) these `str` methods never panic; NOTHING is assumed about their results (present only so that a text that
+// normalises a module name before the lookup is decided by the verifier instead of being rejected)
+pub assume_specification[ str::to_lowercase ](s: &str) -> (r: String);
+pub assume_specification[ str::to_uppercase ](s: &str) -> (r: String);
+pub assume_specification[ str::trim ](s: &str) -> (r: &str);
+
+
 //@@ impl src/vba.rs VbaProject
 //@@ fn src/vba.rs VbaProject::from_cfb props=C18 entry ret=res
 //@@ sig
@@ -1025,6 +1077,68 @@ proof fn witness_fold_bind()
             assert(run_ok(p0, w, vp));
             lemma_run_consequences(p0, the_run(p0, vp), vp);
         }
+//@@ end
+
+//@@ fn src/vba.rs VbaProject::get_references props=C18 entry ret=res
+//@@ sig
+    ensures
+        //# C18.references_are_the_stored_references
+        res@ == self.refs(),
+//@@ end
+//@@ fn src/vba.rs VbaProject::get_module_names props=C18 entry ret=res
+//@@ sig
+    ensures
+        //# C18.module_names_are_the_map_keys
+        forall|key: Seq<char>| self.mods().contains_key(key) <==> exists|i: int| 0 <= i < res@.len() && (#[trigger] res@[i])@ == key,
+        //# C18.module_names_one_per_key
+        res@.len() == self.key_count(),
+//@@ closure 0
+ -> (r: &str) ensures r@ == k@
+//@@ replace /self\.modules\.keys\(\)/ no change of evaluation: the `keys()` iterator and the tail expression of the function are bound to locals (this directive: `let __keys = ..; let __names = __keys`, the next one: `; __names`) so that proof text can mention them
+let __keys = self.modules.keys();
+        let ghost kq = __keys.remaining();
+        let __names: Vec<&str> = __keys
+//@@ replace /\.collect\(\)/ (second half of the binding above)
+.collect();
+        proof {
+            axiom_string_keyed_lookup(self.modules, "");
+            axiom_map_deep_dom(self.modules);
+            let ks = kq.unref();
+            assert forall|key: Seq<char>| self.mods().contains_key(key) <==> exists|i: int| 0 <= i < __names@.len() && (#[trigger] __names@[i])@ == key by {
+                if self.mods().contains_key(key) {
+                    let s = choose|s: String| self.modules@.contains_key(s) && s@ == key;
+                    assert(ks.to_set().contains(s));
+                    let i = choose|i: int| 0 <= i < ks.len() && ks[i] == s;
+                    assert(__names@[i]@ == key);
+                }
+                if exists|i: int| 0 <= i < __names@.len() && (#[trigger] __names@[i])@ == key {
+                    let i = choose|i: int| 0 <= i < __names@.len() && (#[trigger] __names@[i])@ == key;
+                    assert(ks.to_set().contains(ks[i]));
+                    assert(self.modules@.contains_key(ks[i]) && ks[i]@ == key);
+                }
+            }
+        }
+        __names
+//@@ end
+//@@ fn src/vba.rs VbaProject::get_module_raw props=C18 entry ret=res
+//@@ sig
+    ensures
+        //# C18.module_raw_is_bound_content
+        res matches Ok(raw) ==> self.mods().contains_key(name@) && raw@ == self.mods()[name@],
+        //# C18.module_raw_err_iff_absent
+        res is Err <==> !self.mods().contains_key(name@),
+        //# C18.module_raw_err_is_module_not_found
+        res matches Err(e) ==> (e matches VbaError::ModuleNotFound(n) && n@ == name@),
+//@@ body
+        proof { axiom_string_keyed_lookup(self.modules, name); axiom_string_from_str(); }
+//@@ end
+//@@ fn src/vba.rs VbaProject::get_module props=C18 entry ret=res
+//@@ sig
+    ensures
+        //# C18.module_text_is_code_page_decoding
+        res matches Ok(t) ==> self.mods().contains_key(name@) && t@ == decoded(self.cp(), self.mods()[name@]),
+        //# C18.module_text_err_iff_absent
+        res is Err <==> !self.mods().contains_key(name@),
 //@@ end
 //@@ endimpl
 
